@@ -10,6 +10,7 @@
 -/
 import Proofs.GoTieStreamW
 import Proofs.GoTieWitnessA
+import Proofs.GoTieEncrypt
 namespace AgeModel
 namespace Tie.C13
 
@@ -45,6 +46,28 @@ theorem reader_new_rel {α : Type} (a : α) (data : Bytes) (fail : Bool) :
     GoTie.RRel (⟨a, ⟨data, fail⟩, 0, 0, List.replicate 65552 0, none, List.replicate 12 0⟩ : Extracted.stream_Reader α)
       (AgeModel.Stream.Reader.new ⟨data, fail⟩) :=
   GoTie.reader_new_rel a data fail
+
+/-- "a failed Encrypt returns no writer", about the code (`Props.C13.encrypt_failure_no_writer` holds of the model by
+    the type of its result alone): whenever the translated `age.Encrypt` reports an error — whatever the recipients,
+    the random source and the destination do — the writer it returns is the nil writer, so the caller has nothing to
+    go on writing with; and when it reports none, the writer is a stream writer over the destination -/
+theorem code_encrypt_failure_nil_writer (P : Prims) {S : AgeModel.Stream.DstSpec} {ρ δ ω : Type}
+    (E : GoTie.EncryptEnv P S ρ δ ω) (d : δ) (rs : List ρ) (tape : Bytes) :
+    ∃ res, Extracted.age_Encrypt E.nilW (GoTie.tapeRead E.eRand) E.W E.mac E.marshalF E.write E.newWriter E.key d rs tape = .ok res ∧
+      (res.2.1 ≠ none → res.1 = E.nilW) ∧ (res.2.1 = none → ∃ k, res.1 = E.mkW k res.2.2.1) := by
+  obtain ⟨res, hrun, hres⟩ := GoTie.encrypt_tie P E d rs tape
+  refine ⟨res, hrun, ?_⟩
+  generalize encryptInit P tape (rs.map E.recOf) E.hdrSegs (E.absD d) = r at hres
+  obtain ⟨r1, d2⟩ := r
+  cases r1 with
+  | ok v =>
+    obtain ⟨w, k, t'⟩ := v
+    exact ⟨fun hne => absurd hres.2.1 hne, fun _ => ⟨k, hres.1⟩⟩
+  | error e =>
+    refine ⟨fun _ => hres.1, fun hnone => ?_⟩
+    have := hres.2.1
+    rw [hnone] at this
+    cases e <;> simp [GoTie.encErrRel] at this
 
 /-- **the assumption structures this file's theorems take are satisfiable** (for a lawful toy primitive suite
     with the 16-byte tag, where they mention primitives): none of the theorems above is vacuous. The instances are in
